@@ -134,6 +134,7 @@ let parse_op (toks : string list) : opinfo =
   | "copyfile" -> mk (OCopyfile (path_of (a 1), path_of (a 2), zi (int_of_string (a 3)))) KPath2
   | "sendfile" -> mk (OSendfile (zi (slot (a 1)), zi (slot (a 2)), z_of_string (a 3), z_of_string (a 4))) KFd
   | "statx95" -> mk (OStat (path_of (a 1))) KStat
+  | "burst" -> { op = None; kind = KPath1; big = false; lim = -1 }
   | "cancel" ->
       let kind, big = match a 1 with
         | "stat" -> KStat, false | "read" -> KRead, true | "write" -> KWrite, true
@@ -212,6 +213,9 @@ let routes_case (line : string) : string =
       let name = List.hd toks in
       Buffer.add_string buf (Printf.sprintf "%d:%s" idx name);
       (match info.op with
+       | None when info.lim = -1 ->
+           (* a burst: how many requests find room in the ring depends on the kernel thread *)
+           Buffer.add_string buf " via=b sqe=- mS=- mP=- mR=-"
        | None ->
            Buffer.add_string buf (Printf.sprintf " via=- sqe=- mS=- mP=%s mR=-"
              (tuple info.kind Cancel ~big:info.big ~early:false ~ok:false ~n:0 ~lim:0))
@@ -266,8 +270,24 @@ let pool_case (line : string) : string =
       "n=" ^ string_of_z (pool_size v)
   | [] -> "bad case"
 
+(* ---------------- submission ring ---------------- *)
+let sqring_case (line : string) : string =
+  match String.index_opt line ';' with
+  | None -> "bad case"
+  | Some i ->
+    (match split_on ' ' (String.sub line 0 i) with
+     | [h; t] ->
+       let ops = List.map (fun tok ->
+           if tok = "s" then SqSubmit
+           else SqConsume (z_of_string (String.sub tok 1 (String.length tok - 1))))
+           (split_on ' ' (String.sub line (i + 1) (String.length line - i - 1))) in
+       let (gs, r) = sq_run (z_of_int 63) ops { sq_head = z_of_string h; sq_tail = z_of_string t } in
+       String.concat "" (List.map (function Some s -> "g" ^ string_of_z s ^ " " | None -> "f ") gs)
+       ^ Printf.sprintf "h=%s t=%s" (string_of_z r.sq_head) (string_of_z r.sq_tail)
+     | _ -> "bad case")
+
 let () =
   let f = match Sys.argv.(1) with
-    | "bufs" -> bufs_case | "routes" -> routes_case | "pool" -> pool_case
+    | "bufs" -> bufs_case | "routes" -> routes_case | "pool" -> pool_case | "sqring" -> sqring_case
     | _ -> failwith "mode" in
   iter_lines (fun l -> print_string (try f l with e -> "model-error " ^ Printexc.to_string e); print_newline ())
